@@ -9,7 +9,7 @@ Emboss/Spec/View.lean; lemmas: Emboss/Lemmas/{ExprMono,ViewMono,ViewMono2,Synth}
 import Emboss.Lemmas.ViewMono2
 import Emboss.Lemmas.Synth
 import Emboss.Lemmas.Locality
-import Emboss.Lemmas.ViewRef
+import Emboss.Lemmas.ViewRefEquals
 namespace Emboss.View
 open Emboss.ViewSpec
 
@@ -321,63 +321,90 @@ open Emboss.ViewRef
 /-! ### the generated-code model refines the reference semantics R (Spec/ViewRef.lean)
 
 Full statement (DESIGN §7, `C01_G_refines_R`): for every accepted module, structure, parameters
-and buffer, every observation of `G` equals what the reference semantics R defines.  R is now a
-Lean object for its scalar / presence / size core: `RFact`, the least set of facts closed under
-the documented rules (no fuel, no storage model).  Proved for the fragment `flatStruct`: byte
-structures whose fields are `UInt`/`Int` scalars at possibly dynamic offsets, conditional
-fields, virtual fields, parameters and `[requires]`, without constant-folding annotations.
-Outside the fragment (nested structures, `bits`, arrays, aliases, BCD/Flag/enum leaves, folded
-definitions — where R is only a lower bound, D8) the comparison with R stays in Python
-(`embref.py`, every random case of every run). -/
+and buffer, every observation of `G` equals what the reference semantics R defines.  R is a Lean
+object: `RFact m w`, the least set of facts about a view closed under the documented rules (no
+fuel, no storage model).  Proved for the fragment `refModule` (round 3; round 2 had flat byte
+structures only): byte structures **and `bits` containers with sub-byte fields** (`Spec.bits o w x`
+of the container's number, the spec C02 is proved against), **nested at any depth** (a field of
+structure type at a dynamic offset with a dynamic size and run-time arguments: the facts of the
+inner structure over the sub-window), `UInt`/`Int`/`Flag`/unsigned-enum scalars in any byte
+order, conditional fields, virtual fields, **aliases**, parameters, `[requires]`; structures may
+contain arrays of scalars (their presence is inside the theorems, their elements are not reported
+through `read` — see `C01_array_*`).  All expressions without constant-folding annotations.
+Outside the fragment (BCD/Float/signed-enum leaves, arrays of structures, folded definitions —
+where R is only a lower bound, D8) the comparison with R stays in Python (`embref.py`, every
+random case of every run).  The theorems are stated for *every* view of the fragment (`viewWF`:
+a byte window for a `struct`, a number for a `bits`), the view over a message buffer
+(`rootView`) being the instance one starts from. -/
 
-/-- **G refines R** (soundness): whatever the generated view reports as known on a flat
-structure — a readable field with its value, a presence flag — is a fact of the reference
-semantics, at every fuel. -/
-theorem C01_G_refines_R_partial (m : Module) (sd : StructDef) (hflat : flatStruct sd = true)
-    (ps : List Val) (buf : List Nat) (n : Nat) :
-    (∀ p v, (G m n).read (rootView sd ps buf) p = some v → RFact sd ps buf (.val p v)) ∧
-    (∀ p b, (G m n).has (rootView sd ps buf) p = some b → RFact sd ps buf (.pres p b)) :=
-  G_sound m sd hflat ps buf n
+/-- **G refines R** (soundness): whatever the generated view reports as known — a readable
+field with its value, a presence flag, at any path into nested structures and `bits` — is a
+fact of the reference semantics, at every fuel. -/
+theorem C01_G_refines_R_partial (m : Module) (hm : refModule m = true) (w : SView)
+    (href : refStruct m w.sd = true) (hw : viewWF w = true) (n : Nat) :
+    (∀ p v, (G m n).read w p = some v → RFact m w (.val p v)) ∧
+    (∀ p b, (G m n).has w p = some b → RFact m w (.pres p b)) :=
+  G_sound m hm n w href hw
 
-/-- **R is reported by G** (completeness): every fact of the reference semantics about a flat
-structure (whose validators mention only `this` and parameters) is reported by the generated
-view once the fuel statically covers the field (`need`, what `fuelOK` checks on every real IR). -/
-theorem C01_R_reported_by_G_partial (m : Module) (sd : StructDef) (hflat : flatStruct sd = true)
-    (hloc : reqLocal sd = true) (ps : List Val) (buf : List Nat) (n : Nat) :
-    (∀ p v, RFact sd ps buf (.val p v) → need m n sd p = true →
-      (G m n).read (rootView sd ps buf) p = some v) ∧
-    (∀ p b, RFact sd ps buf (.pres p b) → need m n sd p = true →
-      (G m n).has (rootView sd ps buf) p = some b) :=
-  ⟨fun p v h => G_complete m sd hflat hloc ps buf n (.val p v) h,
-   fun p b h => G_complete m sd hflat hloc ps buf n (.pres p b) h⟩
+/-- **R is reported by G** (completeness): every fact of the reference semantics about a view of
+the fragment (whose validators mention only `this` and parameters) is reported by the generated
+view once the fuel statically covers the path (`need`, what `fuelOK` checks on every real IR).
+`moduleWF` (decidable, checked by the driver on every real IR): see `C01_moduleWF_*`. -/
+theorem C01_R_reported_by_G_partial (m : Module) (hm : refModule m = true) (hwfm : moduleWF m = true)
+    (hlocm : reqLocalModule m = true) (w : SView) (href : refStruct m w.sd = true)
+    (hloc : reqLocal w.sd = true) (hw : viewWF w = true) (n : Nat) :
+    (∀ p v, RFact m w (.val p v) → need m n w.sd p = true → (G m n).read w p = some v) ∧
+    (∀ p b, RFact m w (.pres p b) → need m n w.sd p = true → (G m n).has w p = some b) :=
+  ⟨fun p v h => G_complete m hm hwfm hlocm n w (.val p v) h href hloc hw,
+   fun p b h => G_complete m hm hwfm hlocm n w (.pres p b) h href hloc hw⟩
 
 /-- Together: with enough fuel the generated view and the reference agree exactly, value by
-value and presence by presence; in particular R is *functional* on the fragment (a field has at
-most one value, a presence at most one truth value) because `G` is a function. -/
-theorem C01_G_equals_R_partial (m : Module) (sd : StructDef) (hflat : flatStruct sd = true)
-    (hloc : reqLocal sd = true) (ps : List Val) (buf : List Nat) (n : Nat) (p : List String)
-    (hn : need m n sd p = true) :
-    (∀ v, (G m n).read (rootView sd ps buf) p = some v ↔ RFact sd ps buf (.val p v)) ∧
-    (∀ b, (G m n).has (rootView sd ps buf) p = some b ↔ RFact sd ps buf (.pres p b)) :=
-  ⟨fun v => ⟨(G_sound m sd hflat ps buf n).1 p v,
-             fun h => G_complete m sd hflat hloc ps buf n (.val p v) h hn⟩,
-   fun b => ⟨(G_sound m sd hflat ps buf n).2 p b,
-             fun h => G_complete m sd hflat hloc ps buf n (.pres p b) h hn⟩⟩
+value and presence by presence, at every path; in particular R is *functional* on the fragment (a
+field has at most one value, a presence at most one truth value) because `G` is a function. -/
+theorem C01_G_equals_R_partial (m : Module) (hm : refModule m = true) (hwfm : moduleWF m = true)
+    (hlocm : reqLocalModule m = true) (w : SView) (href : refStruct m w.sd = true)
+    (hloc : reqLocal w.sd = true) (hw : viewWF w = true) (n : Nat) (p : List String)
+    (hn : need m n w.sd p = true) :
+    (∀ v, (G m n).read w p = some v ↔ RFact m w (.val p v)) ∧
+    (∀ b, (G m n).has w p = some b ↔ RFact m w (.pres p b)) :=
+  ⟨fun v => ⟨(G_sound m hm n w href hw).1 p v,
+             fun h => G_complete m hm hwfm hlocm n w (.val p v) h href hloc hw hn⟩,
+   fun b => ⟨(G_sound m hm n w href hw).2 p b,
+             fun h => G_complete m hm hwfm hlocm n w (.pres p b) h href hloc hw hn⟩⟩
 
 /-- "The size is the largest end of any present field", on the reference: if R gives the
-synthesised size field (`$size_in_bytes = synthSize fields`, cf. `sizeIsSynth`) the value `r`,
-then there is an assignment `ρ` consisting of R-facts only under which `r` is `ViewSpec.size` of
-the fields' extents — the largest `start + size` over the fields R says are present, all of
-whose presences and locations R knows. -/
-theorem C01_R_size_is_max_end_partial (sd : StructDef) (ps : List Val) (buf : List Nat)
-    (fs : List Field) (hfs : fs.all flatField = true) (x : String) (f : Field)
-    (hf : sd.field x = some f) (hk : f.kind = .virt (synthSize fs) none) (r : Int)
-    (h : RFact sd ps buf (.val [x] (.int r))) :
-    ∃ ρ : Env, (∀ p v, ρ.read p = some v → RFact sd ps buf (.val p v)) ∧
-      (∀ p c, ρ.has p = some c → RFact sd ps buf (.pres p c)) ∧
+synthesised size field (`$size_in_bytes = synthSize fields`, cf. `sizeIsSynth`) of any view — a
+nested structure or a `bits` container included — the value `r`, then there is an assignment `ρ`
+consisting of R-facts only under which `r` is `ViewSpec.size` of the fields' extents — the largest
+`start + size` over the fields R says are present, all of whose presences and locations R knows. -/
+theorem C01_R_size_is_max_end_partial (m : Module) (w : SView)
+    (fs : List Field) (hfs : fs.all locFoldFree = true) (x : String) (f : Field)
+    (hf : w.sd.field x = some f) (hk : f.kind = .virt (synthSize fs) none) (r : Int)
+    (h : RFact m w (.val [x] (.int r))) :
+    ∃ ρ : Env, (∀ p v, ρ.read p = some v → RFact m w (.val p v)) ∧
+      (∀ p c, ρ.has p = some c → RFact m w (.pres p c)) ∧
       ViewSpec.size (extents ρ fs) = some r := by
   cases h with
   | scalar ρ hf' hk' => rw [hf] at hf'; cases hf'; rw [hk] at hk'; cases hk'
+  | aliasVal hf' hk' => rw [hf] at hf'; cases hf'; rw [hk] at hk'; cases hk'
+  | sub ρ hf' hk' hfind hpres hr hh hp hl hs hz hs0 hz0 hargs hsub hout =>
+    rename_i inner
+    cases inner with
+    | val p v =>
+      simp only [Fact.under, Option.some.injEq, Fact.val.injEq, List.cons.injEq] at hout
+      obtain ⟨⟨_, hp'⟩, _⟩ := hout
+      subst hp'
+      exact (val_path_ne_nil hsub).elim
+    | _ => simp [Fact.under] at hout
+  | nullsub hf' hk' hfind hsub hout =>
+    rename_i inner
+    cases inner with
+    | val p v =>
+      simp only [Fact.under, Option.some.injEq, Fact.val.injEq, List.cons.injEq] at hout
+      obtain ⟨⟨_, hp'⟩, _⟩ := hout
+      subst hp'
+      exact (val_path_ne_nil hsub).elim
+    | _ => simp [Fact.under] at hout
   | virt ρ hf' hk' hr hh hp hl hv hreq =>
     rw [hf] at hf'; cases hf'
     rw [hk] at hk'; cases hk'
@@ -428,30 +455,101 @@ def exFlat : StructDef :=
   { name := "Flat", unit := 8, params := ["p"], requires := none, sizeField := "$size",
     fields := exFlatPhys ++ [exFlatSize] }
 
-/-- non-vacuity of the three refinement theorems: the example is inside the fragment, fuel 4
-covers every field, and on `01 00 fe` (n = 1, y at offset 2 = -2) the model computes
-`v = y + p = 5` for `p = 7`, the size 3, and `y` absent for `n = 0`. -/
+/-- `bits Bf: 0 [+1] Flag a / 1 [+3] UInt b / 4 [+4] Int c` -/
+def exBits : StructDef :=
+  { name := "Bf", unit := 1, params := [], requires := none, sizeField := "$size",
+    fields :=
+      [ { name := "a", anon := false, cond := .const (.bool true),
+          kind := .phys (.const (.int 0)) (.const (.int 1)) (.scalar .flag 1 none) .null },
+        { name := "b", anon := false, cond := .const (.bool true),
+          kind := .phys (.const (.int 1)) (.const (.int 3)) (.scalar .uint 3 none) .null },
+        { name := "c", anon := false, cond := .const (.bool true),
+          kind := .phys (.const (.int 4)) (.const (.int 4)) (.scalar .int 4 none) .null } ] }
+
+/-- `struct In(p: UInt:8): 0 [+1] UInt k / 1 [+1] Bf fl / let s = k + p / let cc = fl.c` -/
+def exInner : StructDef :=
+  { name := "In", unit := 8, params := ["p"], requires := none, sizeField := "$size",
+    fields :=
+      [ { name := "k", anon := false, cond := .const (.bool true),
+          kind := .phys (.const (.int 0)) (.const (.int 1)) (.scalar .uint 8 none) .le },
+        { name := "fl", anon := false, cond := .const (.bool true),
+          kind := .phys (.const (.int 1)) (.const (.int 1)) (.struct "Bf" 8 .nil) .le },
+        { name := "s", anon := false, cond := .const (.bool true),
+          kind := .virt (.op .add (.cons (.ref ["k"]) (.cons (.param "p") .nil))) none },
+        { name := "cc", anon := false, cond := .const (.bool true), kind := .alias ["fl", "c"] },
+        { name := "one", anon := false, cond := .const (.bool true), kind := .virt (.const (.int 1)) none } ] }
+
+/-- `struct Out: 0 [+1] UInt n / if n > 0: n [+2] In(n) in / let v = in.s / n+2 [+n] UInt:8[] arr` -/
+def exOuterN : Field :=
+  { name := "n", anon := false, cond := .const (.bool true),
+    kind := .phys (.const (.int 0)) (.const (.int 1)) (.scalar .uint 8 none) .le }
+
+def exOuter : StructDef :=
+  { name := "Out", unit := 8, params := [], requires := none, sizeField := "$size",
+    fields :=
+      [ exOuterN,
+        { name := "in", anon := false, cond := .op .gt (.cons (.ref ["n"]) (.cons (.const (.int 0)) .nil)),
+          kind := .phys (.ref ["n"]) (.const (.int 2)) (.struct "In" 0 (.cons (.ref ["n"]) .nil)) .le },
+        { name := "v", anon := false, cond := .const (.bool true), kind := .virt (.ref ["in", "s"]) none },
+        { name := "arr", anon := false, cond := .const (.bool true),
+          kind := .phys (.op .add (.cons (.ref ["n"]) (.cons (.const (.int 2)) .nil))) (.ref ["n"])
+            (.array (.scalar .uint 8 none) 1) .le } ] }
+
+def exNest : Module := { structs := [exOuter, exInner, exBits, exFlat] }
+
+/-- non-vacuity of the refinement theorems: the module (a structure with a conditional nested
+parameterised structure at a dynamic offset, which contains a `bits` container with a flag, a
+3-bit unsigned and a 4-bit signed field, an alias into it, a virtual field over a parameter; an
+array of scalars; and the flat example of round 2) is inside the fragment, fuel 6 covers the
+paths, and on `02 ff 07 a5` (n = 2; `in` = `07 a5`: k = 7, fl = 0xa5: a = 1, b = 2, c = -6) the
+model computes `in.s = 9 = v`, `in.fl.c = -6 = in.cc`; with `n = 0` the inner structure is absent
+but its constant `one` still reads 1 (null view). -/
 example :
-    flatStruct exFlat = true ∧ reqLocal exFlat = true ∧ exFlatPhys.all flatField = true ∧
-    need { structs := [exFlat] } 4 exFlat ["v"] = true ∧
-    need { structs := [exFlat] } 4 exFlat ["$size"] = true ∧
-    (G { structs := [exFlat] } 4).read (rootView exFlat [.int 7] [1, 0, 254]) ["v"] = some (.int 5) ∧
-    (G { structs := [exFlat] } 4).read (rootView exFlat [.int 7] [1, 0, 254]) ["$size"] = some (.int 3) ∧
-    (G { structs := [exFlat] } 4).has (rootView exFlat [.int 7] [0]) ["y"] = some false ∧
-    (G { structs := [exFlat] } 4).read (rootView exFlat [.int 7] [1, 0]) ["y"] = none := by
+    refModule exNest = true ∧ moduleWF exNest = true ∧ reqLocalModule exNest = true ∧
+    viewWF (rootView exOuter [] [2, 255, 7, 165]) = true ∧
+    need exNest 6 exOuter ["in", "fl", "c"] = true ∧ need exNest 6 exOuter ["v"] = true ∧
+    (G exNest 6).read (rootView exOuter [] [2, 255, 7, 165]) ["in", "fl", "c"] = some (.int (-6)) ∧
+    (G exNest 6).read (rootView exOuter [] [2, 255, 7, 165]) ["in", "fl", "a"] = some (.bool true) ∧
+    (G exNest 6).read (rootView exOuter [] [2, 255, 7, 165]) ["in", "fl", "b"] = some (.int 2) ∧
+    (G exNest 6).read (rootView exOuter [] [2, 255, 7, 165]) ["in", "cc"] = some (.int (-6)) ∧
+    (G exNest 6).read (rootView exOuter [] [2, 255, 7, 165]) ["v"] = some (.int 9) ∧
+    (G exNest 6).read (rootView exOuter [] [2, 255, 7]) ["in", "fl", "c"] = none ∧
+    (G exNest 6).read (rootView exOuter [] [2, 255, 7]) ["in", "k"] = some (.int 7) ∧
+    (G exNest 6).has (rootView exOuter [] [0]) ["in"] = some false ∧
+    (G exNest 6).read (rootView exOuter [] [0]) ["in", "one"] = some (.int 1) ∧
+    (G exNest 6).read (rootView exOuter [] [0]) ["in", "k"] = none ∧
+    need exNest 4 exFlat ["v"] = true ∧
+    (G exNest 4).read (rootView exFlat [.int 7] [1, 0, 254]) ["v"] = some (.int 5) ∧
+    (G exNest 4).read (rootView exFlat [.int 7] [1, 0, 254]) ["$size"] = some (.int 3) ∧
+    (G exNest 4).has (rootView exFlat [.int 7] [0]) ["y"] = some false ∧
+    (G exNest 4).read (rootView exFlat [.int 7] [1, 0]) ["y"] = none := by
   decide
 
-/-- … hence these are facts of R (derived through the theorem, not by hand), and R's size fact
-is the largest end of a present field. -/
-example : RFact exFlat [.int 7] [1, 0, 254] (.val ["v"] (.int 5)) ∧
-    RFact exFlat [.int 7] [0] (.pres ["y"] false) ∧
+/-- … hence these are facts of R (derived through the theorem, not by hand) — a sub-byte field of
+a `bits` container inside a nested structure at a dynamic offset; a fact below an absent field —
+and R's size fact is the largest end of a present field. -/
+example : RFact exNest (rootView exOuter [] [2, 255, 7, 165]) (.val ["in", "fl", "c"] (.int (-6))) ∧
+    RFact exNest (rootView exOuter [] [0]) (.val ["in", "one"] (.int 1)) ∧
+    RFact exNest (rootView exFlat [.int 7] [1, 0, 254]) (.val ["v"] (.int 5)) ∧
+    RFact exNest (rootView exFlat [.int 7] [0]) (.pres ["y"] false) ∧
     ∃ ρ : Env, ViewSpec.size (extents ρ exFlatPhys) = some 3 := by
-  refine ⟨(C01_G_refines_R_partial { structs := [exFlat] } exFlat (by decide) _ _ 4).1 _ _ (by decide),
-    (C01_G_refines_R_partial { structs := [exFlat] } exFlat (by decide) _ _ 4).2 _ _ (by decide), ?_⟩
-  obtain ⟨ρ, _, _, h⟩ := C01_R_size_is_max_end_partial exFlat [.int 7] [1, 0, 254] exFlatPhys (by decide)
-    "$size" exFlatSize (by rfl) rfl 3
-    ((C01_G_refines_R_partial { structs := [exFlat] } exFlat (by decide) _ _ 4).1 _ _ (by decide))
+  refine ⟨(C01_G_refines_R_partial exNest (by decide) _ (by decide) (by decide) 6).1 _ _ (by decide),
+    (C01_G_refines_R_partial exNest (by decide) _ (by decide) (by decide) 6).1 _ _ (by decide),
+    (C01_G_refines_R_partial exNest (by decide) _ (by decide) (by decide) 4).1 _ _ (by decide),
+    (C01_G_refines_R_partial exNest (by decide) _ (by decide) (by decide) 4).2 _ _ (by decide), ?_⟩
+  obtain ⟨ρ, _, _, h⟩ := C01_R_size_is_max_end_partial exNest (rootView exFlat [.int 7] [1, 0, 254])
+    exFlatPhys (by decide) "$size" exFlatSize (by rfl) rfl 3
+    ((C01_G_refines_R_partial exNest (by decide) _ (by decide) (by decide) 4).1 _ _ (by decide))
   exact ⟨ρ, h⟩
+
+/-- and conversely (completeness): an R-fact derived by hand — `n` is present, by the `pres` rule
+with the empty assignment — is reported by the model. -/
+example : (G exNest 6).has (rootView exOuter [] [2, 255, 7, 165]) ["n"] = some true :=
+  (C01_R_reported_by_G_partial exNest (by decide) (by decide) (by decide) _ (by decide) (by decide)
+    (by decide) 6).2 _ _
+    (RFact.pres { read := fun _ => none, has := fun _ => none, param := fun _ => none, lv := none }
+      (f := exOuterN) (by rfl) (by intro p v h; cases h) (by intro p c h; cases h)
+      (by intro n v h; cases h) rfl (by decide)) (by decide)
 
 end Emboss.View
 
